@@ -349,6 +349,9 @@ func TestC06(t *testing.T) {
 			}
 			ev.Class(id, "relation drivers (in-process x2, binary, go vet)")
 		}
+		if cross {
+			ev.SampleFallback(id, map[string]interface{}{"packages": pkgDirs(p), "diagnostics": len(res.Diags), "one_file": firstFile(src)})
+		}
 		if ev.SampleCount(id) < 2 && cross && p.Size() < 130 {
 			ev.Sample(id, map[string]interface{}{"sources": src, "diagnostics": sortedKeys(diagSet(res.Diags))})
 		}
